@@ -139,4 +139,5 @@ pub fn b64_rt<S: Src, const L: usize, const T: usize>(s: &mut S) {
     std::mem::forget(e);
 }
 
+
 include!("gen/c18_list.rs");
